@@ -1,12 +1,12 @@
 ---- MODULE ConfigRedactTrace ----
 (* Trace validation of real admin dumps against ConfigRedact (C20).  Events (harness/cmd/c19 -mode redact):
-     new{id,init}        fresh MOSN started from a file with a TLS context (distinct real key) at every position in init
+     new{id,init}        fresh MOSN started from a file with a TLS context (distinct real key) at every slot [p,i] in init
      start{ok}
-     place{p,ok}         runtime update configuring position p with a fresh key (listener adapter / cluster manager
-                         adapter / UpdateTLSManager / SetExtend)
+     place{p,k,ok}       runtime update configuring position p with fresh keys at the elements k (listener adapter /
+                         cluster manager adapter / UpdateTLSManager / SetExtend)
      dump{e,status,leaked,redacted,live_diff,persisted_diff}
-                         GET /api/v1/config_dump with endpoint parameter e; leaked = positions whose current key (or
-                         "retired" for a replaced one) occurs in the body; redacted = number of placeholders in the body;
+                         GET /api/v1/config_dump with endpoint parameter e; leaked = slots "p#i/<key pattern of p>" whose current key
+                         (or "retired" for a replaced one) occurs in the body; redacted = number of placeholders in the body;
                          live_diff / persisted_diff = paths where the effective configuration / the restart bytes
                          differ from what they were before the request
      final{kept,placeholder_in_file,handshake,reload}
@@ -19,9 +19,11 @@ S(seq) == { seq[i] : i \in DOMAIN seq }
 
 TraceInit == /\ l = 1 /\ stored = {} /\ truth = {} /\ leaked = {} /\ redacted = 0 /\ hist = <<>>
 
+Slots(seq) == { <<seq[i][1], seq[i][2]>> : i \in DOMAIN seq }
+
 TNew == /\ IsEvent("new")
-        /\ S(Ev.init) \subseteq Positions
-        /\ stored' = S(Ev.init) /\ truth' = S(Ev.init) /\ leaked' = {} /\ redacted' = 0 /\ hist' = <<>>
+        /\ \A s \in Slots(Ev.init) : s[1] \in Positions
+        /\ stored' = Slots(Ev.init) /\ truth' = Slots(Ev.init) /\ leaked' = {} /\ redacted' = 0 /\ hist' = <<>>
 
 TStart == /\ IsEvent("start")
           /\ Expect(Ev.ok, "start:refused")
@@ -30,22 +32,22 @@ TStart == /\ IsEvent("start")
 TPlace == /\ IsEvent("place")
           /\ Ev.p \in Positions
           /\ Expect(Ev.ok, "place:" \o Ev.p \o ":refused")
-          /\ stored' = (stored \ Excl(Ev.p)) \cup {Ev.p}
-          /\ truth' = (truth \ Excl(Ev.p)) \cup {Ev.p}
+          /\ stored' = Replace(stored, Ev.p, S(Ev.k))
+          /\ truth' = Replace(truth, Ev.p, S(Ev.k))
           /\ UNCHANGED <<leaked, redacted, hist>>
 
 TDump == /\ IsEvent("dump")
          /\ Ev.e \in Endpoints
-         /\ LET inView == stored \cap ViewOf(Ev.e) IN
+         /\ LET inView == { s \in stored : s[1] \in ViewOf(Ev.e) } IN
               /\ Expect(Ev.status = 200, "dump:" \o Ev.e \o ":status")
-              /\ \A p \in S(Ev.leaked) : Expect(FALSE, "leak:" \o Ev.e \o ":" \o p)
-              /\ Expect(Ev.redacted >= Sum(inView), "placeholder-missing:" \o Ev.e)   \* every key in view is replaced by the placeholder
+              /\ \A x \in S(Ev.leaked) : Expect(FALSE, "leak:" \o Ev.e \o ":" \o x)
+              /\ Expect(Ev.redacted >= Cardinality(inView), "placeholder-missing:" \o Ev.e)   \* every key in view is replaced by the placeholder
               /\ Expect(Ev.live_diff = <<>>, "dump-altered-live-config:" \o Ev.e)
               /\ Expect(Ev.persisted_diff = <<>>, "dump-altered-persisted-config:" \o Ev.e)
          /\ UNCHANGED vars
 
 TFinal == /\ IsEvent("final")
-          /\ \A p \in truth : Expect(p \in S(Ev.kept), "persisted-file-lost-key:" \o p)
+          /\ \A p \in { s[1] : s \in truth } : Expect(p \in S(Ev.kept), "persisted-file-lost-key:" \o p)
           /\ Expect(~Ev.placeholder_in_file, "placeholder-in-persisted-file")
           /\ Expect(Ev.handshake, "tls-handshake-fails-after-dumps")
           /\ Expect(Ev.reload, "restart-from-persisted-file-fails")
